@@ -220,7 +220,7 @@ func cmdCheck(args []string) int {
 	}
 	defer native.Close()
 
-	replayDir := filepath.Join(verifDir, "replays", id)
+	replayDir := filepath.Join(outDir, "replays", id)
 	os.RemoveAll(replayDir)
 	os.MkdirAll(replayDir, 0o755)
 
@@ -425,10 +425,10 @@ func cmdCheck(args []string) int {
 		"wall_s":      time.Since(start).Seconds(),
 		"violations":  nViol,
 	}
-	os.MkdirAll(filepath.Join(verifDir, "evidence"), 0o755)
+	os.MkdirAll(filepath.Join(outDir, "evidence"), 0o755)
 	data, _ := json.MarshalIndent(ev, "", " ")
 	if totalPaths > 0 && totalQueries > 0 {
-		os.WriteFile(filepath.Join(verifDir, "evidence", id+".json"), data, 0o644)
+		os.WriteFile(filepath.Join(outDir, "evidence", id+".json"), data, 0o644)
 	}
 
 	for _, l := range knownLines {
